@@ -8,8 +8,7 @@
   makes the key set prefix-free; go-libdht panics on anything else).
 
   Still open at full strength (monitored by the correspondence + the brute-force predicates of the
-  `C18v` driver on every run, exhaustively for short keys):  coalesce_spec, the order of the gaps,
-  nextLeaf_cyclic_successor, covered_iff, allEntries_sorted.
+  `C18v` driver on every run, exhaustively for short keys):  coalesce_spec, the order of the gaps, covered_iff.
 -/
 import KadDHT.Proofs.Keyspace
 import KadDHT.Proofs.Alloc
@@ -154,6 +153,30 @@ theorem allocAt_exact (items dests : Trie Key) (k depth n : Nat) (pi pd : Key) (
     TopK x k (keysL dests) (asg (allocAt dests k depth items) x) :=
   good_all dests k depth items pi pd n hsd hsi hwd hwi hpi hpd hld hli x hx
 
+/-- AllEntries / AllKeys / AllValues enumerate in the order induced by `order` (an order key at least as long as the
+    trie is deep, as a 256-bit order always is): of any two enumerated keys the earlier one agrees with `order` at the
+    first bit where they differ — the comparator of `sortBitstrKeysByOrder`. -/
+theorem allEntries_sorted (t : Trie α) (hwf : WF [] t) (order : Key) (h : t.height ≤ order.length) :
+    (t.keysIn order).Pairwise (fun a b => orderBefore order a b = true) := by
+  have := entriesAt_sorted order t [] hwf (by simpa using h)
+  simpa [keysIn, entries] using this
+
+/-- NextNonEmptyLeaf is the cyclic successor: in the enumeration of the trie in the order induced by `order` (sorted,
+    `allEntries_sorted`) it returns the first entry that comes strictly after `k`, and wraps around to the first entry
+    of all when there is none — whether or not `k` itself is stored.  (Stated for tries whose keys all have the length
+    of `k`, the case the declarative check of the correspondence run covers; mixed lengths are compared only.) -/
+theorem nextLeaf_cyclic_successor (t : Trie α) (hwf : WF [] t) (k order : Key)
+    (hlen : ∀ x ∈ keysL t, x.length = k.length) (hko : k.length ≤ order.length) (hh : t.height ≤ k.length) :
+    t.nextNonEmptyLeaf k order =
+      match (t.entries order).find? (fun e => orderBefore order k e.1) with
+      | some e => some e
+      | none => (t.entries order).head? := by
+  have := nextLeafAt_spec k order hko t 0 [] hwf rfl (by simp [isPre]) hlen (by simpa using hh)
+  unfold nextNonEmptyLeaf entries
+  rw [this]
+  unfold specNext
+  cases (entriesAt order 0 t).find? (fun e => orderBefore order k e.1) <;> simp
+
 /-- TrieGaps tiles the target: for every (long enough) key `x` below the target prefix exactly one element of
     "stored keys ++ gaps" is a prefix of `x`.  Existence … -/
 theorem gaps_cover_target (t : Trie α) (hwf : WF [] t) (target order x : Key) (ht : isPre target x = true)
@@ -197,6 +220,10 @@ example : exT.findPrefixOfKey [false, true, true, false] = some [false, true, tr
 example : (exT.prune [false]).keys = [[true]] := by decide
 example : (regionsAt 1 [] [] exT).map (·.1) = [[false, false], [false, true], [true]] := by decide
 example : gaps exT [false] [] = [[false, true, false]] := by decide
+example : exT.keysIn [true, false, true] = [[true], [false, false], [false, true, true]] := by decide
+def exU : Trie Nat := node (node (leaf [false, false] 1) (leaf [false, true] 2)) (leaf [true, false] 3)
+example : (exU.nextNonEmptyLeaf [false, true] [false, false]).map (·.1) = some [true, false] ∧
+    (exU.nextNonEmptyLeaf [true, false] [false, false]).map (·.1) = some [false, false] := by decide
 
 /-! non-vacuity of `allocate_exact`: four 3-bit destinations, two items, k = 2 -/
 def exD : Trie Nat := node (node (leaf [false, false, true] 1) (leaf [false, true, false] 2))
